@@ -216,6 +216,26 @@ def gen(chk):
     for recv in ("BaseObj.bear({a: 1})", "{_iter: nil}"):
         for chain in ("@{|x| x}", "~@{|x| x}", "=@{|x| x}", "&@{|x| x}", "$(0){|a, x| a}", "~$(0){|a, x| a}", "=$(0){|a, x| a}", "~$(0)+", "@S", "~@S"):
             cases.append(("noiter/%s" % chain[:2], "r := 1.try.{|_| (%s)%s}.err.{|e| e.type._name if e != nil}\nr" % (recv, chain), [], ("val", '"TypeErr"')))
+    # a built-in function OBJECT as the callee of a variable call: each element is its one argument, whatever its length
+    pre = "rows := [[3, 1, 2], [5], [], [4, 6]]\nlen := Arr['len]\nuc := Str['uc]\n"
+    cases.append(("builtin-callee/@", pre + "r := [rows@len, rows@{|x| x.len}, rows@^len, rows~@^len, rows=@^len, rows&@^len]\nr", [],
+                  ("val", "[" + ", ".join(["[3, 1, 0, 2]"] * 6) + "]")))
+    cases.append(("builtin-callee/.", pre + 'r := [[7, 8].^len, [7, 8]&.^len, [7, 8]~.^len, ["ab", "c"]@^uc, "ab".^uc]\nr', [], ("val", '[2, 2, 2, ["AB", "C"], "AB"]')))
+    cases.append(("builtin-callee/$", pre + "r := rows$(0){|acc, r| acc + r.^len}\nr", [], ("val", "6")))
+    # a strict chain keeps nil results: with an obj / map chain argument they are not pairs, so the digest fails (it must not drop
+    # them as `@` does); with an arr chain argument they are kept
+    pre = ("xs := [1, 2, 3, 4]\npairOf := {|x| [x.S, x * 10] if x.even?}\no4 := xs@{|x| {v: x, pair: m{[.v.S, .v * 10] if .v.even?}}}\n"
+           "t := {|f| nil.try.fmap {f()}.err.{|e| e.type._name if e != nil}}\n")
+    cases.append(("strict-digest/squash", pre + "r := [xs@({})^pairOf, xs@({}){|x| [x.S, x * 10] if x.even?}, o4@({})pair, xs@(%{})^pairOf, xs&@({})^pairOf]\nr", [],
+                  ("val", '[{"2": 20, "4": 40}, {"2": 20, "4": 40}, {"2": 20, "4": 40}, %{"2": 20, "4": 40}, {"2": 20, "4": 40}]')))
+    cases.append(("strict-digest/strict", pre + "r := [t({|| xs=@({})^pairOf}), t({|| xs=@({}){|x| [x.S, x * 10] if x.even?}}), t({|| o4=@({})pair}), t({|| xs=@(%{})^pairOf})]\nr", [],
+                  ("val", '["ValueErr", "ValueErr", "ValueErr", "ValueErr"]')))
+    cases.append(("strict-digest/arr", pre + "r := xs=@([])^pairOf\nr", [], ("val", '[nil, ["2", 20], nil, ["4", 40]]')))
+    # a child (bear) of an iterator is a receiver like the iterator itself, in every context and form
+    pre = "it := <{|i| yield i if i <= 3; recur(i + 1)}>.new(1)\nnamed := it.bear({name: \"one to three\"})\nf := {|x| x * 3}\n"
+    cases.append(("iter-child", pre + "r := [named.name, named@{|x| x * 2}, named@S, named$(0)+, named.A, named~@{|x| x}, named=@{|x| x}, named&@{|x| x}, named@^f, named$(1){|a, x| a * x}]\nr", [],
+                  ("val", '["one to three", [2, 4, 6], ["1", "2", "3"], 6, [1, 2, 3], [1, 2, 3], [1, 2, 3], [1, 2, 3], [3, 6, 9], 6]')))
+    cases.append(("iter-child", "b := [1, 2, 3]._iter.bear({})\nr := b@{|x| x * 2}\nr", [], ("val", "[2, 4, 6]")))
     # the chain argument's own entries win over collected results with the same key
     cases.append(("digest/obj-overlap", 'r := ["a", "b"]@({a: 0}){|k| [k, k.uc]}\nr', [], ("val", '{"a": 0, "b": "B"}')))
     cases.append(("digest/map-overlap", "r := [1, 2]@(%{1: 'x}){|k| [k, k * 2]}\nr", [], ("val", '%{1: "x", 2: 4}')))
